@@ -571,6 +571,7 @@ void harness_init(Params const& p)
   g_excl_f10 = excluded(p, "sim.first_log_between_cache_refresh_and_ts_now");
   g_excl_f11 = excluded(p, "sim.drops_of_exited_thread_unreported");
   g_excl_f2 = excluded(p, "sim.nonstd_exception_from_formatter");
+  g_bt_throws = param_int(p, "bt_throws", 0) != 0;
   g_excl_f3 = excluded(p, "sim.backtrace_index_not_reset");
   g_excl_f9 = excluded(p, "sim.invalid_context_counter_wraps_at_256");
 }
